@@ -10,9 +10,9 @@ namespace {
 #define VH_SCALAR Rat
 #endif
 constexpr size_t OPMAX = 5;  // operand orders 0..5 (results up to 10)
-// binary calls: every pair of orders 0..3; an operand of order 4 or 5 with a partner of order <= 2 or of its own order
+// binary calls: every pair of orders 0..3; an operand of order 4 or 5 with a partner of order <= 3 or of its own order
 constexpr bool pairOK(size_t oa, size_t ob) {
-  return (oa <= 3 && ob <= 3) || (oa >= 4 && oa <= OPMAX && (ob <= 2 || ob == oa)) || (ob >= 4 && ob <= OPMAX && oa <= 2);
+  return (oa <= 3 && ob <= 3) || (oa >= 4 && oa <= OPMAX && (ob <= 3 || ob == oa)) || (ob >= 4 && ob <= OPMAX && oa <= 3);
 }
 
 // SplNew: construction from (support window, coefficients) with every count;
@@ -41,29 +41,56 @@ void splNew(const json &in, json &out) {
 template <typename T>
 void splEval(const json &in, json &out) {
   const json &ja = in.at("a");
-  const auto gp = opGrid<T>(ja.at("g"));
-  auto &g = operandRef(gp);
-  withOrder(ja.at("o").get<size_t>(), [&](auto O) {
-    constexpr size_t ord = decltype(O)::value;
-    if constexpr (ord <= OPMAX) {
-      const auto pp = opSpline<T, ord>(ja, g);
-      auto &p = operandRef(pp);
-      out["a"] = projSpline(p);
-      json vals = json::array();
-      for (const auto &jx : in.at("xs")) vals.push_back(Codec<T>::enc(p(Codec<T>::dec(jx))));
-      out["vals"] = vals;
-      // second pass in the opposite order on the same object: evaluation must not depend on what was evaluated before
-      json vals2 = json::array();
-      const json &xs = in.at("xs");
-      for (size_t i = xs.size(); i-- > 0;) vals2.push_back(Codec<T>::enc(p(Codec<T>::dec(xs[i]))));
-      std::reverse(vals2.begin(), vals2.end());
-      out["vals2"] = vals2;
-      T v{};
-      if (guarded(out, "front", [&] { v = p.front(); })) out["front_v"] = Codec<T>::enc(v);
-      if (guarded(out, "back", [&] { v = p.back(); })) out["back_v"] = Codec<T>::enc(v);
-      out["a_after"] = projSpline(p);
-    }
-  });
+  {
+    const auto gp = opGrid<T>(ja.at("g"));
+    auto &g = operandRef(gp);
+    withOrder(ja.at("o").get<size_t>(), [&](auto O) {
+      constexpr size_t ord = decltype(O)::value;
+      if constexpr (ord <= OPMAX) {
+        const auto pp = opSpline<T, ord>(ja, g);
+        auto &p = operandRef(pp);
+        out["a"] = projSpline(p);
+        json vals = json::array();
+        for (const auto &jx : in.at("xs")) vals.push_back(Codec<T>::enc(p(Codec<T>::dec(jx))));
+        out["vals"] = vals;
+        // second pass in the opposite order on the same object: evaluation must not depend on what was evaluated before
+        json vals2 = json::array();
+        const json &xs = in.at("xs");
+        for (size_t i = xs.size(); i-- > 0;) vals2.push_back(Codec<T>::enc(p(Codec<T>::dec(xs[i]))));
+        std::reverse(vals2.begin(), vals2.end());
+        out["vals2"] = vals2;
+        T v{};
+        if (guarded(out, "front", [&] { v = p.front(); })) out["front_v"] = Codec<T>::enc(v);
+        if (guarded(out, "back", [&] { v = p.back(); })) out["back_v"] = Codec<T>::enc(v);
+        out["a_after"] = projSpline(p);
+      }
+    });
+  }
+  // Third pass ("churn"): the grid and the spline above are gone; a grid with as many points, every point moved by
+  // one half, and the same coefficients on it are built in their place - most likely in the very same storage -
+  // and evaluated at the moved abscissae.  What an evaluation returns must depend on the object alone, not on an
+  // object that lived at that address before (sequential runs only: in threaded runs the operands are shared).
+  if (opCache().mode == 0) {
+    const T half = static_cast<T>(1) / static_cast<T>(2);
+    std::vector<T> pts = decVec<T>(ja.at("g"));
+    for (auto &x : pts) x += half;
+    const Grid<T> g2(std::move(pts));  // (the buffer just allocated - where the first grid's points lived - becomes the grid's storage)
+    withOrder(ja.at("o").get<size_t>(), [&](auto O) {
+      constexpr size_t ord = decltype(O)::value;
+      if constexpr (ord <= OPMAX) {
+        const Spline<T, ord> p2 = mkSpline<T, ord>(ja, g2);
+        out["a2"] = projSpline(p2);
+        json xs2 = json::array(), vals3 = json::array();
+        for (const auto &jx : in.at("xs")) {
+          const T x = Codec<T>::dec(jx) + half;
+          xs2.push_back(Codec<T>::enc(x));
+          vals3.push_back(Codec<T>::enc(p2(x)));
+        }
+        out["xs2"] = xs2;
+        out["vals3"] = vals3;
+      }
+    });
+  }
 }
 
 // SplUn: scalar operations, unary minus, predicates, cross-order assignment
